@@ -68,6 +68,9 @@ def h_payload(ctx):
         ctx.cut("flat-needs-grid")
     if form == "masked" and gk == "nogrid0":
         ctx.cut("0-d masked object arrays collapse to scalars inside numpy.ma (proxy limitation)")
+    # metadata may demand a fixed mask (applied by prepare to unmasked payloads)
+    fixed = (ctx.flag("info_fixed_mask") if shape and gk != "nogrid1" else False)
+    FM = ((np.arange(n).reshape(shape) % 3) == 1) if fixed else None
     vals = [ctx.real(f"x{q}") for q in range(n)]
     X = np.empty(shape, dtype=object)
     for q, idx in enumerate(np.ndindex(*shape)):
@@ -85,20 +88,24 @@ def h_payload(ctx):
     elif form == "with_time_axis":
         data = X[np.newaxis, ...]
     elif form == "masked":
-        M = (np.arange(n).reshape(shape) % 2 == 0) if shape else np.array(False)
+        M = FM if fixed else ((np.arange(n).reshape(shape) % 2 == 0) if shape else np.array(False))
         data = np.ma.array(X, mask=M)
     else:
         data = vals[0]
     if given is not None:
         data = fm.UNITS.Quantity(np.asarray(data, dtype=object) if form != "masked" else data, given)
-    out = fm.Output(name="out", info=fm.Info(time=hlib.T0, grid=grid, units=pu))
+    if fixed:
+        M = FM
+        out = fm.Output(name="out", info=fm.Info(time=hlib.T0, grid=grid, units=pu, mask=FM.copy()))
+    else:
+        out = fm.Output(name="out", info=fm.Info(time=hlib.T0, grid=grid, units=pu))
     inp = fm.Input(name="in", info=fm.Info(time=hlib.T0, grid=None, units=cu))
     out >> inp
     inp.ping()
     inp.exchange_info()
     out.push_data(data, hlib.T0)
     d = inp.pull_data(hlib.T0)
-    sig = f"{gk}:{form}:{given or pu}->{pu}->{cu}"
+    sig = f"{gk}:{form}:{given or pu}->{pu}->{cu}:{'fixedmask' if fixed else 'flex'}"
     ctx.cover("delivered")
     ctx.check(tuple(d.shape) == (1,) + tuple(shape), "delivered-shape", {"sig": sig, "shape": str(d.shape)})
     ctx.check(d.units == fm.UNITS.Unit(cu), "delivered-units", {"sig": sig})
@@ -120,7 +127,7 @@ def h_payload(ctx):
         ctx.check(np.ma.isMaskedArray(dm) and bool(np.array_equal(np.ma.getmaskarray(dm)[0], M)),
                   "delivered-mask-differs", {"sig": sig})
     # publishing an array that shares memory with the previously published one is refused
-    if form in ("array", "with_time_axis", "flat") and shape and given is None:
+    if form in ("array", "with_time_axis", "flat") and shape and given is None and not fixed:
         try:
             out.push_data(data, hlib.T0 + hlib.DAY)
             ctx.fail("memory-sharing-publication-accepted", {"sig": sig})
